@@ -7,9 +7,12 @@ git -C $WT diff --stat | tail -1
 cmd=$(python3 -c "import json;print(json.load(open('$OUT/meta.json'))['demo_cmd'])")
 echo "demo_cmd: $cmd"
 ( cd $OUT && timeout 900 bash -c "$cmd" > $OUT/confirm_mod.log 2>&1 ); rc_mod=$?
-git -C $WT stash -q
+# (git stash is shared between worktrees: save the change to a file instead)
+git -C $WT diff > $OUT/confirm_saved.diff
+git -C $WT checkout -- .
 ( cd $OUT && timeout 900 bash -c "$cmd" > $OUT/confirm_clean.log 2>&1 ); rc_clean=$?
-git -C $WT stash pop -q
+git -C $WT apply $OUT/confirm_saved.diff
+cmp -s <(git -C $WT diff) $OUT/patch.diff || echo "NOTE: worktree diff differs from patch.diff"
 echo "demo: modified rc=$rc_mod  clean rc=$rc_clean"
 tests=$(python3 -c "
 import json,os
